@@ -1,4 +1,4 @@
 SPECIFICATION Spec
-CONSTANT Positions = {"ret_after_lit", "ret_in_lit_after_lit", "methodret", "branchret", "closurearg", "append", "elemassign", "let", "assign", "arg", "ret", "field", "elem", "fieldassign", "methodarg", "closureret", "compound", "optional", "global", "optarg", "optret", "optfield", "optassign"}
+CONSTANT Positions = {"coalesce", "catchfallback", "ret_after_lit", "ret_in_lit_after_lit", "methodret", "branchret", "closurearg", "append", "elemassign", "let", "assign", "arg", "ret", "field", "elem", "fieldassign", "methodarg", "closureret", "compound", "optional", "global", "optarg", "optret", "optfield", "optassign"}
 INVARIANT EmitCase
 CHECK_DEADLOCK FALSE
